@@ -30,7 +30,7 @@ def seed_ids(prop=None):
 def patched_sources(sid, base=None):
     """-> ({rel: source}, error)"""
     base = dict(base) if base is not None else load_sources()
-    patch = os.path.join(VERIF, "seeded", sid, "patch.diff")
+    patch = sid if os.path.isabs(sid) else os.path.join(VERIF, "seeded", sid, "patch.diff")
     files = set(re.findall(r"^\+\+\+ b/(\S+)", open(patch).read(), re.M))
     tmp = tempfile.mkdtemp(prefix="pta-seed-")
     try:
@@ -89,4 +89,45 @@ def run(prop=None, jobs=16, verbose=True):
         for r in res:
             print("seed %-8s %-12s %s %s" % (r[1], r[0], r[2], "; ".join(r[3])[:160]))
         print("seeds: %d, detected %d, skipped %d, missed %d" % (len(res), sum(1 for r in res if r[1] == "ok"), sum(1 for r in res if r[1] == "skipped"), len(fails)))
+    return res, fails
+
+
+# ---------------------------------------------------------------------------
+# behaviour-preserving patches (benign corpus): every claimed check must stay silent on each of them
+def benign_ids():
+    return sorted(os.path.basename(d) for d in glob.glob(os.path.join(VERIF, "benign", "*")) if os.path.exists(os.path.join(d, "patch.diff")))
+
+
+def _run_benign(args):
+    bid, pid, base = args
+    from . import core
+    src, err = patched_sources(os.path.join(VERIF, "benign", bid, "patch.diff"), base)
+    if src is None:
+        return bid, pid, "skipped", err
+    try:
+        code, ctx = core.run_property(pid, "quick", sources=src, write=False, quiet=True)
+    except Exception as e:  # pragma: no cover
+        return bid, pid, "FAIL", "exception %r" % e
+    if code == 0:
+        return bid, pid, "ok", ""
+    bad = ["%s %s (%s) %s" % (o.rule, o.construct, o.verdict, o.reason[:120]) for o in (ctx.obs if ctx else []) if o.verdict in ("violation", "inconclusive", "error")]
+    return bid, pid, "FAIL", "exit %d: %s" % (code, "; ".join(bad[:2]))
+
+
+def run_benign(props=None, jobs=16, verbose=True):
+    from . import core
+    from . import rules  # noqa: F401
+    base = load_sources()
+    pids = props or sorted(core.PROP_RULES)
+    work = [(b, pid, base) for b in benign_ids() for pid in pids]
+    if not work:
+        return [], []
+    with multiprocessing.Pool(min(jobs, len(work))) as pool:
+        res = pool.map(_run_benign, work, chunksize=2)
+    fails = [r for r in res if r[2] == "FAIL"]
+    if verbose:
+        for r in res:
+            if r[2] != "ok":
+                print("benign %-8s %-14s %s %s" % (r[2], r[0], r[1], r[3]))
+        print("benign: %d patches x %d checks, %d failed, %d skipped" % (len(benign_ids()), len(pids), len(fails), sum(1 for r in res if r[2] == "skipped")))
     return res, fails
